@@ -144,6 +144,22 @@ def exec_structure(case):
             for bn, val in before[n]["buffers"].items():
                 if not torch.equal(getattr(m1, bn), val):
                     out.fail("structure/ineligible-changed", f"buffer {n!r}.{bn} changed")
+    if case["seed"] % 6 == 0 and not out.failures:
+        # the model handed to quantize() IS an eligible module: the object the caller holds cannot be replaced in place, so the
+        # call either refuses (ValueError) or leaves it alone -- in both cases the module still is what it was and still runs
+        hp = [{"t": "linear", "i": 4, "o": 3, "bias": True}, {"t": "conv", "ci": 2, "co": 2, "k": 1, "stride": 1, "padding": 0, "dilation": 1, "groups": 1, "pmode": "zeros", "bias": False},
+              {"t": "mylinear", "i": 3, "o": 2, "bias": False}][(case["seed"] // 6) % 3]
+        bare = M.build_tree(hp, g).to(dtype)
+        was = snapshot(bare)[""]
+        r = cut(quantize, bare, **{k_: v_ for k_, v_ in kw.items() if k_ != "modules"})
+        out.klass.append("bare-eligible-root")
+        if isinstance(r, Raised) and r.type != "ValueError":
+            return out.fail(f"structure/bare-root/raises:{r.type}", r.text)
+        now = snapshot(bare)[""]
+        same = set(now["params"]) == set(was["params"]) and all(now["params"][k_][0].dtype == v_[0].dtype and torch.equal(now["params"][k_][0], v_[0]) for k_, v_ in was["params"].items())
+        if not same or now["has_bias"] != was["has_bias"] or len(list(bare.named_modules())) != 1:
+            out.fail("structure/bare-root/corrupted", f"quantize() of a model that is itself a {type(bare).__name__} {'raised ValueError and ' if isinstance(r, Raised) else ''}left it with parameters "
+                                                      f"{ {k_: (None if getattr(bare, k_, None) is None else tuple(getattr(bare, k_).shape)) for k_ in was['params']} } and children {[n_ for n_, _ in bare.named_children()]}")
     return out
 
 
